@@ -45,7 +45,13 @@ const (
 	nxk
 )
 
-func kindOf(n int32) xkind { return xkind(n % 100) }
+// numbers ..00-..06: one extension per kind; ..07: an int64 extension that declares a default value
+func kindOf(n int32) xkind {
+	if k := xkind(n % 100); k < nxk {
+		return k
+	}
+	return xkI64
+}
 
 var (
 	v2Nums, v1Nums, extNums []int32
@@ -215,6 +221,15 @@ func setupExts() {
 		}
 		fdp.Extension = append(fdp.Extension, x)
 	}
+	{
+		// an extension with a declared default: unset, the runtimes answer the default from Get and false from Has
+		n := int32(50107)
+		v2Nums = append(v2Nums, n)
+		v1Nums = append(v1Nums, 50207)
+		fdp.Extension = append(fdp.Extension, &descriptorpb.FieldDescriptorProto{
+			Name: proto.String("e50107"), Number: proto.Int32(n), Extendee: proto.String(".google.protobuf.MessageOptions"),
+			Type: descriptorpb.FieldDescriptorProto_TYPE_INT64.Enum(), Label: descriptorpb.FieldDescriptorProto_LABEL_OPTIONAL.Enum(), DefaultValue: proto.String("7")})
+	}
 	extNums = append(append([]int32{}, v2Nums...), v1Nums...)
 	fd, err := protodesc.NewFile(fdp, protoregistry.GlobalFiles)
 	hx.Must(err)
@@ -232,6 +247,9 @@ func setupExts() {
 			return fmt.Sprintf("fixed64,%d,opt,name=%s", n, name)
 		case xkEnum:
 			return fmt.Sprintf("varint,%d,opt,name=%s,enum=google.protobuf.FieldDescriptorProto_Type", n, name)
+		}
+		if n%100 == 7 {
+			return fmt.Sprintf("varint,%d,opt,name=%s,def=7", n, name)
 		}
 		return fmt.Sprintf("varint,%d,opt,name=%s", n, name)
 	}
@@ -339,13 +357,41 @@ func streamC12(r *hx.Rng) {
 		{"unknown", func() interface{} { return new(int) }, nil},
 	}
 	flNums := map[string][]int32{"v2": v2Nums, "v1": v1Nums, "gogo": extNums, "other": {1}}
-	for i := 0; i < n; i++ {
+	// scripted histories first: for every runtime, accepted flavour and extension: two assignments in a row
+	// of special value pairs (equal values, zeros of opposite sign, the declared default), then every reader
+	type script struct {
+		rc  rtcase
+		ops []xop
+	}
+	var scripts []script
+	for ri, fls := range [][]string{{"v2", "v1"}, {"gogo"}} {
+		for _, fl := range fls {
+			for _, num := range flNums[fl] {
+				for _, pair := range [][2]int64{{0, math.MinInt64}, {math.MinInt64, 0}, {5, 5}, {7, 7}, {0, 0}, {1, 0}} {
+					k := kindOf(num)
+					scripts = append(scripts, script{rts[ri], []xop{
+						{typ: "has", fl: fl, n: num}, {typ: "get", fl: fl, n: num},
+						{typ: "set", fl: fl, n: num, v: normCode(k, pair[0])}, {typ: "get", fl: fl, n: num},
+						{typ: "set", fl: fl, n: num, v: normCode(k, pair[1])}, {typ: "get", fl: fl, n: num}, {typ: "has", fl: fl, n: num}, {typ: "range"},
+						{typ: "clear", fl: fl, n: num}, {typ: "get", fl: fl, n: num}, {typ: "has", fl: fl, n: num}, {typ: "range"}}})
+				}
+			}
+		}
+	}
+	for i := 0; i < n+len(scripts); i++ {
 		rc := rts[i%len(rts)]
 		if i%len(rts) >= 2 && i%7 != 0 {
 			rc = rts[i%2]
 		}
+		var scripted []xop
+		if i < len(scripts) {
+			rc, scripted = scripts[i].rc, scripts[i].ops
+		}
 		m := rc.fresh()
 		nops := 3 + r.Intn(8)
+		if scripted != nil {
+			nops = len(scripted)
+		}
 		var toks, outs []string
 		for k := 0; k < nops; k++ {
 			var o xop
@@ -363,7 +409,12 @@ func streamC12(r *hx.Rng) {
 			num := nums[r.Intn(len(nums))]
 			switch c := r.Intn(12); {
 			case c < 4:
-				o = xop{typ: "set", fl: fl, n: num, v: normCode(kindOf(num), int64(r.U64()>>uint(r.Intn(64))))}
+				v := int64(r.U64() >> uint(r.Intn(64)))
+				if r.Intn(3) == 0 {
+					// zeros of both signs, and the declared default
+					v = []int64{0, math.MinInt64, 7, 1}[r.Intn(4)]
+				}
+				o = xop{typ: "set", fl: fl, n: num, v: normCode(kindOf(num), v)}
 			case c < 6:
 				o = xop{typ: "get", fl: fl, n: num}
 			case c < 8:
@@ -376,6 +427,9 @@ func streamC12(r *hx.Rng) {
 				o = xop{typ: "range"}
 			default:
 				o = xop{typ: "number", fl: fl, n: num}
+			}
+			if scripted != nil {
+				o = scripted[k]
 			}
 			if rc.rt == "googlev1" && o.typ == "range" {
 				o = xop{typ: "clearall"} // LegacyV1 has no extension ranges: the v1 runtime's own ExtensionDescs answers with an error
@@ -450,6 +504,9 @@ func streamC12(r *hx.Rng) {
 				if accepted {
 					if out != "none" || !csproto.HasExtension(m, d) {
 						fail("after SetExtension, HasExtension is not true", cs, "true", out, "ext-set")
+					}
+					if got := guard(func() string { v, _ := csproto.GetExtension(m, d); return fromGo(v) }); got != hx.I(o.v) {
+						fail("after SetExtension, GetExtension does not return the value set", cs, hx.I(o.v), got, "ext-set-get")
 					}
 					if rc.rt == "google" && !proto.HasExtension(m.(proto.Message), d.(protoreflect.ExtensionType)) {
 						fail("SetExtension did not reach the owning runtime", cs, "set", "unset", "ext-set")
